@@ -167,6 +167,26 @@ pub fn cases(tier: &str, seed: u64) -> Vec<Case> {
             }
         }
     }
+    // names of 120 .. 128 one-octet labels (127 of them make exactly 255 octets: the most labels a name can have), in
+    // place, and with the last k labels reached through a pointer
+    for labels in 120..=128usize {
+        for split in [0usize, 1, 60, 126] {
+            if split >= labels { continue; }
+            // tail: the last `split` labels + root at offset 0 .. ; head: the first labels - split labels + pointer to 0
+            let mut buf: Vec<u8> = vec![];
+            for i in (labels - split)..labels { buf.push(1); buf.push(b'a' + (i % 26) as u8); }
+            buf.push(0);
+            let start = buf.len();
+            for i in 0..(labels - split) { buf.push(1); buf.push(b'a' + (i % 26) as u8); }
+            if split == 0 { /* the tail is just the root octet at 0 */ }
+            buf.push(0xC0); buf.push(0);
+            push_case(&mut v, &buf, start, "many-labels");
+        }
+        let mut flat: Vec<u8> = vec![];
+        for i in 0..labels { flat.push(1); flat.push(b'a' + (i % 26) as u8); }
+        flat.push(0);
+        push_case(&mut v, &flat, 0, "many-labels");
+    }
     // names inside RDATA (the property is observed at Packet::parse: question names, owner names, names
     // inside RDATA): every name-bearing record type, reference-encoded with pointers in any name -
     // including the types whose senders must not compress - must decode to the names that were encoded
